@@ -1,4 +1,4 @@
-(* C03: semantic obligations for basis configurations 192 .. 255 of all_cfgs (20 gate kinds each) *)
+(* C03: semantic obligations (every canonical basis configuration) for the gate kinds of slice 3 *)
 From QV Require Import Model.Resolve Proofs.ResolveChkDefs.
-Lemma chk_sem_3 : sem_ok (slice 3) = true.
+Lemma chk_sem_3 : obls_ok (kslice 3) = true.
 Proof. vm_compute. reflexivity. Qed.
